@@ -115,6 +115,13 @@ C04_State(e, cs) ==
   /\ CountIf(5, e.ph = 1 /\ e.st > 0 /\ (RabbitOnGoal(e.b, Gold) \/ RabbitOnGoal(e.b, Silver)
                                            \/ NoRabbits(e.b, Gold) \/ NoRabbits(e.b, Silver)))
 
+\* C05 quantifies over all games played through offered actions: an OFFERED turn-ending action whose
+\* result equals the turn's starting board, or would be a third occurrence, is a game that breaks it
+C05_State(e, cs) ==
+  e.ph = 1 =>
+    Chk("C05", "an offered action would end the turn on an unchanged board or on a third occurrence",
+        \A k \in 1..Len(e.off) : ~Withheld(cs, e.off[k]))
+
 C06_State(e, cs) ==
   e.ph = 1 =>
     /\ Chk("C06", "offered list is not the rule-only list minus the withheld turn-ending actions",
@@ -244,6 +251,7 @@ StateConjuncts(e, cs) ==
   /\ (Enforced("C17") => C17_State(e, cs))
   /\ (Enforced("C01") => C01_State(e, cs))
   /\ (Enforced("C04") => C04_State(e, cs))
+  /\ (Enforced("C05") => C05_State(e, cs))
   /\ (Enforced("C06") => C06_State(e, cs))
   /\ (Enforced("C07") => C07_State(e, cs))
   /\ (Enforced("C08") => C08_State(e, cs))
@@ -288,8 +296,6 @@ C09_Trans(pre, a, n, e) ==
            e.b = [pre.b EXCEPT ![NextHomeSquare(pre.b, pre.s)] = Cell(pre.s, a[2])])
     /\ Chk("C09", "phase, side or counters wrong after a placement",
            e.ph = n.ph /\ e.s = n.s /\ e.mn = Limbs(n.mn) /\ e.st = 0 /\ e.pp = NoPP /\ e.prev = <<>>)
-    /\ Chk("C09", "play phase does not start with a one-entry history",
-           n.ph = 1 => e.hl = 1)
     /\ CountIf(17, n.ph = 1)
 
 C12_Trans(pre, a, n, e, cs) ==
